@@ -211,6 +211,9 @@ unsigned long strtoul (const char *nptr, char **endptr, int base)
       size_t r = nondet_size ();
       __CPROVER_assume (r >= 20 && r <= len);
       __CPROVER_assume (r == len || !(nptr[r] >= '0' && nptr[r] <= '9'));
+      /* the run continues past 20 only over digits: stated for the first of
+         them (the rest of the universal statement is not needed by any caller) */
+      __CPROVER_assume (r == 20 || (nptr[20] >= '0' && nptr[20] <= '9'));
       end = r;
     }
   if (nd == 0)
